@@ -14,7 +14,7 @@ CHECKS = {
                 'KKT conditions of the constrained least-squares problem, beats integer competitors around the optimum, and that chi^2 is the minimum plus '
                 'penalties.  A seed-chosen 1/8 (thorough 1/16 of a 25x larger space) of those behaviours is replayed through real Fitter.fit on real packages and every '
                 "model's (A_V, scale, chi^2) compared by name; random wider sources/grids (2-4 bands, 1-8 models, +-12 dex) are recorded from the code "
-                'and validated by Trace_FitKernel.',
+                'and validated by Trace_FitKernel.  A second TLC run covers 4-band sources over flags {1,2,3} with two different confidences (two limits next to a non-singular regression).  The extinction law of every real world is tabulated in a representation drawn from a hash of the world (micron/nm/Angstrom/cm/mm, cm2/g | m2/kg, overall factor).',
         'ref': 'DESIGN.md section 6 C01',
         'note': _NOTE + ' Inputs are lattice points (integers in quarter dex, W in {1,4,16}, K_j in 0..4); nothing is claimed about rounding-error growth off the lattice.',
         'technique': 'TLA+ spec (exact rational kernel) + TLC exhaustive check of KKT optimality; spec->code replay; code->spec trace validation',
@@ -68,7 +68,7 @@ CHECKS = {
     },
     'C08': {
         'text': 'MC_Planted.tla (on FitKernel): photometry synthesised on the lattice from model mp at (A_V0, scale) or at grid distance i0; TLC checks PlantedRecovered for 3 grids x 2 extinction patterns x every planted model x 4 planted (A_V0, scale) x 3 relative errors x '
-                '{aperture-independent, distance grid x 3 planted distances}: chi^2 = 0 exactly at the planted parameters, the planted distance is the unique grid minimum, and every other model has chi^2 > 0 whenever the grid is non-degenerate -- '
+                '{aperture-independent, distance grid x 3 planted distances} x {no extra model, a 4th model with zero flux in a fitted band (PlantedFirst, DarkLast: its chi^2 is NaN or >= 1e30 and it is ranked last)}: chi^2 = 0 exactly at the planted parameters, the planted distance is the unique grid minimum, and every other model has chi^2 > 0 whenever the grid is non-degenerate -- '
                 'non-degeneracy (no model in another\'s span of reddening + scaling) is computed by the spec.  Replay runs the WHOLE chain on real files: SED package (per-file or cube, random table permutation, storage orders, library or raw writer) with SEDs constant over each '
                 'normalised filter\'s support -> convolve_model_dir -> data file -> fit() -> first record of the fit file -> write_parameters first row (model, chi^2, A_V, scale, the model\'s own parameter row).',
         'ref': 'DESIGN.md section 6 C08',
@@ -117,17 +117,17 @@ CHECKS = {
         'text': 'ApInterpOps.tla gives aperture interpolation of one row exactly (PwLin: refuse below, clamp above, linear between, single aperture repeated); ApInterp.tla builds every table '
                 'over radii subsets of {1,2,4,8,16} AU (1..3 knots quick, 1..4 thorough), 2 rows, values in {0,1,3} (0..3) and TLC checks ExactAtKnots, LinearBetween, ClampedAbove, RefusedBelow, '
                 'SingleRepeats and that one too-small request refuses the call while others are unaffected, for 15 requests from below to above the table.  Every sampled table is replayed into '
-                'ConvolvedFluxes.interpolate (table and requests in AU/pc/cm, flux and error rows), SED.interpolate and SED.interpolate_variable (bare numbers in AU, table in AU/pc/cm); '
+                'ConvolvedFluxes.interpolate (table and requests in AU/pc/cm, flux and error rows), SED.interpolate (bare numbers in AU and quantities) and SED.interpolate_variable (bare numbers in AU, table in AU/pc/cm); a request ON a tabulated radius is derived from the table's own stored value converted to the request's unit; '
                 'recorded random tables (1-8 knots, 1-6 rows) are validated by Trace_ApInterp.',
         'ref': 'DESIGN.md section 6 C13',
-        'note': _NOTE + ' Boundary: a request exactly on the first/last tabulated radius that goes through a unit conversion may be refused (1 ulp); the plotting variant may use 0.999 x largest radius at and above the table end.',
+        'note': _NOTE + ' No refusal is admitted at a tabulated radius (requests on the table are derived from the table); the plotting variant may use 0.999 x largest radius at and above the table end.',
         'technique': 'TLA+ spec (exact piecewise-linear functions) + TLC exhaustive; spec->code replay into three entry points; trace validation',
     },
     'C14': {
         'text': 'ExtinctionLaw.tla defines k(lambda) = -2/5 chi(lambda)/chi(V) exactly with zero outside the table; Extinction.tla builds every table of 2..5 (thorough 6) nodes over a 6-wavelength lattice '
                 '(V on a node or between nodes), opacities 1..4, then all sequences of two representation changes (pickle, table, text file, text file with column selection, unit changes, rescaling).  TLC checks '
                 'ExactAtV, ZeroOutside, ScaleInvariant, AtNodes, NonPositive, TableNeverChanges.  Sampled behaviours are replayed into Extinction.get_av (queries on nodes / between / outside / at the ends, in um/nm/cm/m, '
-                'vector and scalar) to 1e-12; recorded random tables of 2..60 (thorough 200) rows with random conversions and queries are validated by Trace_Extinction.',
+                'as one vector, as 1-element arrays and as true 0-d Quantities) to 1e-12; recorded random tables of 2..60 (thorough 200) rows with random conversions and queries are validated by Trace_Extinction.',
         'ref': 'DESIGN.md section 6 C14',
         'note': _NOTE + ' Boundary: a query exactly on the first/last node that went through a unit conversion may fall 1 ulp outside (0).',
         'technique': 'TLA+ spec (exact rational law) + TLC exhaustive; spec->code replay; trace validation',
@@ -160,7 +160,7 @@ CHECKS = {
         'technique': 'TLA+ state machine + TLC; behaviours replayed through filter_output; trace validation',
     },
     'C11': {
-        'text': 'TLC checks the kernel invariances PermuteBands (all 6 permutations of 3 bands) and ScaleFlux (4 constants) on every enumerated source.  Replay: all sampled behaviours of a '
+        'text': 'TLC checks the kernel invariances PermuteBands (all 6 permutations of 3 bands; a transposition, the rotation and the reversal of 4-band sources holding two limits with different confidences; thorough: all 24) and ScaleFlux (4 constants) on every enumerated source.  Replay: all sampled behaviours of a '
                 'configuration go through ONE real fitter in seed-shuffled order (history freedom; source pickled before/after), then again on packages with bands and models permuted and all '
                 'fluxes scaled by 10^(c/4), compared to the spec rows (scale shifted by -c/8).  Trace_FitKernel validates recorded histories of up to 6 interleaved fits per fitter against '
                 'a spec state that contains only the fitter.',
